@@ -45,6 +45,25 @@ CHECKS = {
         note='GIL semantics; bytecode-level interleavings only in the listed '
              'functions; set iteration order of MVCC instances is owned by '
              'the harness'),
+    'C03': dict(
+        technique='stateless preemption-bounded exploration of real committer '
+                  'threads under a controlled scheduler on four storages, '
+                  'plus all interleavings of step-program pairs; derivation-'
+                  'chain oracle on the final history',
+        text='Eight harnesses of 2-3 committers (same object, retry after a '
+             'conflict, two objects with the conflict on the second, '
+             'readCurrent with and without a savepoint) on FileStorage, '
+             'MappingStorage, DemoStorage(Mapping over Mapping) and '
+             'DemoStorage(Mapping over FileStorage, objects in the base): '
+             'every schedule with <= 2 preemptions (3 thorough). Every write '
+             'stores the serial it was derived from, so the final history '
+             'shows directly whether each revision derives from its '
+             'predecessor; failed commits must leave nothing and must be '
+             'justified by a really newer revision; readCurrent objects must '
+             'have been current at the commit point.',
+        design='5 (C03)',
+        note='classes without conflict resolution (C10 covers resolution); '
+             'GIL semantics'),
     'C04': dict(
         technique='explicit-state exploration of all operation sequences up '
                   'to a depth on the real storages, full query battery vs a '
